@@ -85,6 +85,9 @@ def install(R: Registry):
     for kind, ty in (("int", "Int"), ("none", "None"), ("float", "Float")):
         R.contract(V + f"String.validate_one#{kind}", tags="C09", params=dict(value=ty), requires=["self.len >= 2"],
                    ensures=[("C09", "False")], raises={"TypeError": [("C09", "True")]})
+    R.contract(V + "String.__get__", tags="C03 C09", params=dict(obj="MsgObj", objtype="None"), returns="Str", ctype_model="string",
+               ensures=[("C03 C09", "isascii(result)", "a string field read back is ASCII: the manager relies on this when it copies a client's name into its own messages")],
+               raises={"UnicodeDecodeError": []})
     R.contract(V + "Byte.validate_one#int", tags="C09", params=dict(value="Int"), requires=["self._min == 0 and self._max == 255"],
                ensures=[("C09", "0 <= value and value <= 255")], raises={"ValueError": [("C09", "value < 0 or value > 255")]})
     for kind, ty in (("float", "Float"), ("str", "Str"), ("none", "None")):
@@ -98,5 +101,5 @@ VALIDATOR_TARGETS = [V + k for k in (
     "IntValidatorBase.validate_one#none", "IntValidatorBase.validate_many#intlist", "IntValidatorBase.validate_many#ctarray", "IntValidatorBase.__set__#int",
     "FloatValidatorBase.validate_one#float32", "FloatValidatorBase.validate_one#float64", "FloatValidatorBase.validate_one#str", "FloatValidatorBase.validate_one#none",
     "FloatValidatorBase.validate_one#int", "FloatValidatorBase.validate_many#floatlist32", "FloatValidatorBase.validate_many#floatlist64", "FloatValidatorBase.__set__#float32",
-    "String.validate_one#str", "String.validate_one#int", "String.validate_one#none", "String.validate_one#float",
+    "String.validate_one#str", "String.validate_one#int", "String.validate_one#none", "String.validate_one#float", "String.__get__",
     "Byte.validate_one#int", "Byte.validate_one#float", "Byte.validate_one#str", "Byte.validate_one#none")]
